@@ -214,6 +214,17 @@ class MachineGen:
             g = self.guard_ctx()
             return g if rng.random() < 0.7 else {"type": g}
         if k == "param":
+            if rng.random() < 0.45:
+                # params that are falsy values (0, {}, [], "", False) are still params: the guard must receive them
+                lit = rng.choice((0, {}, [], "", False))
+                expect_same = rng.random() < 0.6
+                name = "g_peq_" + {0: "zero", "": "empty"}.get(lit if isinstance(lit, (int, str)) and not isinstance(lit, bool) else None,
+                                                              type(lit).__name__) + ("" if expect_same else "_ne")
+                self.guards[name] = {"k": "params_eq", "v": lit if expect_same else "something-else"}
+                params = lit
+                if rng.random() < 0.4:
+                    params = {"$fn": {"k": "const", "name": "gparams_falsy_" + type(lit).__name__, "v": lit}}
+                return {"type": name, "params": params}
             want = rng.choice((True, False))
             name = "g_param"
             self.guards[name] = {"k": "param_truth", "key": "v"}
